@@ -23,6 +23,8 @@ type delivery struct {
 	Flag      bool   // StateRootEnabled of the decoder for Raw
 	Seq       string // "" | "twice" (b, then Raw=b again) | "gap" (Raw = block tip+2, then b, then Raw)
 	TxWitness bool   // only witnesses of transactions differ from b (hashes are those of b)
+	PH        string // name of the mempool history (Seq "poolhist")
+	Ahead     bool   // poolhist: headers of block N and N+1 are delivered before block N
 }
 
 type item struct {
@@ -563,6 +565,24 @@ func menu() []item {
 			}
 			return d
 		}})
+	}
+	// ---- mempool histories (see poolhist_test.go) ---------------------------------------------
+	for _, sp := range phSpecs() {
+		sp := sp
+		for _, ahead := range []bool{false, true} {
+			ahead := ahead
+			id := "pool." + sp.name
+			if ahead {
+				id += ".headers-ahead"
+			}
+			add(item{ID: id, Group: "pool-history", Make: func(c *stateCtx) *delivery {
+				ph := c.ph[sp.name]
+				if ph == nil {
+					return nil
+				}
+				return &delivery{Raw: ph.X, Flag: c.fam.SRIH, Seq: "poolhist", PH: sp.name, Ahead: ahead}
+			}})
+		}
 	}
 	// the valid block itself (control: must be accepted)
 	add(item{ID: "ctl.valid-block", Group: "control", Hdr: true, Want: "valid", Make: func(c *stateCtx) *delivery {
